@@ -342,6 +342,36 @@ func c08CheckBuildOpen(r *vr.Report, bc c08BuildCase) {
 	r.Outcome(fmt.Sprintf("buildopen:my-as-is-as-trans=%v", sent.MyAS == rn.ASTrans))
 	r.Outcome(fmt.Sprintf("buildopen:addpath-tuples=%d", wantTuples))
 	r.NT(fmt.Sprintf("bo|%v", bc))
+	// the same neighbour under a DIFFERENT global AS: its configuration then carries a per-neighbour local-as
+	// (conf.Config.LocalAs stays what it is), and that - not the global AS - is what the OPEN announces, in the
+	// My-AS field and in the 4-octet capability alike
+	for _, other := range []uint32{64999, 4200009999} {
+		if other == bc.Local.AS {
+			continue
+		}
+		g2 := c08Global(other, bc.RouterID)
+		var raw2 []byte
+		func() {
+			defer func() {
+				if p := recover(); p != nil {
+					r.Violationf("C08:unit:buildopen-panic:local-as-override", bc, "buildopen panics: %v", p)
+				}
+			}()
+			raw2, _ = buildopen(g2, &conf).Serialize()
+		}()
+		if raw2 == nil {
+			continue
+		}
+		sent2, perr := rn.ParseOpen(raw2)
+		if perr != nil {
+			r.Violationf("C08:unit:buildopen-malformed:local-as-override", bc, "global AS %d, neighbour local-as %d: the OPEN does not parse: %v", other, bc.Local.AS, perr)
+			continue
+		}
+		for _, d := range rn.ExpectOpen(L, sent2) {
+			r.Violationf("C08:sent-open:local-as-override:"+d[0], bc, "global AS %d, neighbour local-as %d: OPEN [% x]: %s", other, bc.Local.AS, raw2, d[1])
+		}
+		r.Outcome("buildopen:local-as-override-checked")
+	}
 }
 
 var (
